@@ -444,25 +444,25 @@ Definition known_D16 (c : lcase) : bool :=
 
 Definition is_structural (op : fop) : bool := is_block_style op || match op with FEnd => true | _ => false end.
 
-(* domain: every injection is applicable to its instruction; no special-mode site lies inside a region
-   the plan itself removes; the user does not delete structural instructions with plain alternate
-   (the result would not be a decodable body); at least one special-mode or function-level injection *)
+(* domain: every injection is applicable to its instruction; the user does not delete structural instructions
+   with plain alternate (the result would not be a decodable body); at least one special-mode or function-level
+   injection.  Special-mode sites inside a region the plan itself removes (and on the replaced opener) are inside
+   the domain: the instruction is gone, so its probes must be gone too -- silently (holds22). *)
 (* a block-alternate site that is not strictly inside a region removed by another block-alternate *)
 Definition top_level (c : lcase) (i : nat) : bool :=
   negb (mem_nat i (removed (filter (fun e => negb (Nat.eqb (fst (fst e)) i)) (c_plan c)) (c_body c))).
 
 Definition domain22 (c : lcase) : bool :=
-  let rem := removed (c_plan c) (c_body c) in
   plan_in_range (length (c_body c)) (c_plan c) && well_bracketed (c_body c)
   && forallb (fun e => let '(i, m, _) := e in
                 let op := nth i (c_body c) FEnd in
                 accepts op m
-                && (match m with MAlternate => negb (is_structural op) | _ => true end)
-                && (if plain_mode m then true else if mode_eqb m MBlockAlt then top_level c i else negb (mem_nat i rem))) (c_plan c)
+                && (match m with MAlternate => negb (is_structural op) | _ => true end)) (c_plan c)
   && (existsb (fun e => special_mode (snd (fst e))) (c_plan c) || negb (is_nil (c_entry c)) || negb (is_nil (c_exit c))).
 
-(* nested block-alternates: an inner one lies inside a removed region and is (rightly) dropped; for a
-   replaced construct the markers of its final replacement code must occur *)
+(* for a replaced construct the markers of its final replacement code must occur; a nested block-alternate lies
+   inside a removed region and is (rightly) dropped with it, and so is every other special-mode probe on a removed
+   instruction or on the replaced opener: none of its markers may occur; and nothing is logged as unresolved *)
 Definition holds22 (c : lcase) : bool :=
   match c_obs c with
   | None => false
@@ -474,9 +474,11 @@ Definition holds22 (c : lcase) : bool :=
                     then (if top_level c i
                           then forallb (fun z => occurs z b)
                                  (markers (match acc_repl (c_plan c) i MBlockAlt None with Some a => a | None => [] end))
-                          else true)
-                    else if special_mode m && negb (mem_nat i rem)
-                    then forallb (fun z => occurs z b) (markers code) else true) (c_plan c)
+                          else forallb (fun z => negb (occurs z b)) (markers code))
+                    else if special_mode m
+                    then (if mem_nat i rem then forallb (fun z => negb (occurs z b)) (markers code)
+                          else forallb (fun z => occurs z b) (markers code))
+                    else true) (c_plan c)
       && forallb (fun z => occurs z b) (markers (c_entry c))
       && forallb (fun z => occurs z b) (markers (c_exit c))
   end.
@@ -492,17 +494,10 @@ Definition verdict21 (c : lcase) : bool * bool * bool * list N :=
 Definition verdict22 (c : lcase) : bool * bool * bool * list N :=
   (agree c, domain22 c, holds22 c,
    (if known_D16 c then [16] else []))%N.
-(* C05 on this engine: the second encoding equals the first.
-   D31: a special-mode injection that sits inside a region the same plan removes (or on the removed opener)
-   is never resolved; it is still attached to the IR after the first encode and the second encode treats it
-   differently ("BUG: ... should be resolved already" is logged) *)
-Definition known_D31 (c : lcase) : bool :=
-  let rem := removed (c_plan c) (c_body c) in
-  existsb (fun e => let '(i, m, _) := e in
-             special_mode m && (if mode_eqb m MBlockAlt then negb (top_level c i) else mem_nat i rem)) (c_plan c).
+(* C05 on this engine: the second encoding equals the first -- for every plan, also with special-mode injections
+   inside regions the same plan removes (the former D31; Proofs/Cleared.v proves it of the mirror) *)
 Definition verdict05 (c : lcase) : bool * bool * bool * list N :=
-  (agree c, match c_obs c with Some _ => true | None => false end, c_obs2_same c,
-   (if known_D31 c then [31] else []))%N.
+  (agree c, match c_obs c with Some _ => true | None => false end, c_obs2_same c, []).
 
 Definition report_C15 := run_report verdict15.
 Definition report_C21 := run_report verdict21.
